@@ -96,17 +96,18 @@ def _ops():
 
     return [
         ("emit.class_", lambda S, T, U: _code(e.class_(S))),
-        ("emit.class_call", lambda S, T, U: _code(e.class_(S, emit_call=True, class_name="K"))),
+        # (some calls pass the description by its documented keyword: how an argument is passed must not matter)
+        ("emit.class_call", lambda S, T, U: _code(e.class_(intermediate_repr=S, emit_call=True, class_name="K"))),
         ("emit.class_docs", lambda S, T, U: _code(e.class_(S, emit_default_doc=True, class_name="D"))),
         ("emit.function", lambda S, T, U: _code(e.function(S, function_name="f", function_type="static"))),
-        ("emit.function_docs", lambda S, T, U: _code(e.function(S, function_name="g", function_type="self", inline_types=False, emit_as_kwonlyargs=False, emit_default_doc=True))),
+        ("emit.function_docs", lambda S, T, U: _code(e.function(intermediate_repr=S, function_name="g", function_type="self", inline_types=False, emit_as_kwonlyargs=False, emit_default_doc=True))),
         # under the IR's own name and type, so that a carried body is re-emitted (get_internal_body matches on them)
         ("emit.function_same", lambda S, T, U: _code(e.function(S, function_name=None, function_type=None))),
         ("emit.argparse_same", lambda S, T, U: _code(e.argparse_function(S, function_name=None, function_type=None))),
         ("emit.argparse", lambda S, T, U: _code(e.argparse_function(S))),
-        ("emit.argparse_doc", lambda S, T, U: _code(e.argparse_function(S, emit_default_doc=True, function_name="h"))),
+        ("emit.argparse_doc", lambda S, T, U: _code(e.argparse_function(intermediate_repr=S, emit_default_doc=True, function_name="h"))),
         ("emit.docstring_rest", lambda S, T, U: e.docstring(S, docstring_format="rest")),
-        ("emit.docstring_numpydoc", lambda S, T, U: e.docstring(S, docstring_format="numpydoc", emit_default_doc=False)),
+        ("emit.docstring_numpydoc", lambda S, T, U: e.docstring(intermediate_repr=S, docstring_format="numpydoc", emit_default_doc=False)),
         ("emit.docstring_google", lambda S, T, U: e.docstring(S, docstring_format="google")),
         ("sync.composite", composite),
         # T: the tree S was parsed from (its body statements are shared with S["_internal"]["body"])
